@@ -96,12 +96,25 @@ void a_que_dtor(a_que *ctx, void (*dtor)(void *))
     ctx->mem_ = 0;
 }
 
+/* the list head is embedded in the queue: after a structure copy the ring must close on its new head */
+static void a_que_move_(a_que *ctx, a_que const *old)
+{
+    if (ctx->head_.next == &old->head_) { a_list_init(&ctx->head_); }
+    else
+    {
+        ctx->head_.next->prev = &ctx->head_;
+        ctx->head_.prev->next = &ctx->head_;
+    }
+}
+
 void a_que_swap(a_que *lhs, a_que *rhs)
 {
     a_que swap;
     swap = *lhs;
     *lhs = *rhs;
     *rhs = swap;
+    a_que_move_(lhs, rhs);
+    a_que_move_(rhs, lhs);
 }
 
 int a_que_drop(a_que *ctx, void (*dtor)(void *))
